@@ -2,6 +2,7 @@ package simrt
 
 import (
 	"fmt"
+	"reflect"
 	"runtime"
 	"sort"
 	"strconv"
@@ -159,6 +160,7 @@ type Sim struct {
 	actors   []*actor
 	pending  []Event // events logged by actors during the current step
 	siteCtr  map[string]int
+	spawnCtr map[string]int
 
 	callerDone     atomic.Bool
 	mutexContended atomic.Int64
@@ -201,6 +203,7 @@ func New(opt Options) *Sim {
 		opt:     opt,
 		byGID:   make(map[uint64]*actor),
 		siteCtr: make(map[string]int),
+		spawnCtr: make(map[string]int),
 		rng:     NewRNG(opt.Seed, "sched"),
 		fired:   make(map[string]int),
 	}
@@ -261,6 +264,56 @@ func (s *Sim) yield(site, rename string) {
 	<-a.wake // durable block: the channel was made inside the bubble
 }
 
+// Spawned wraps a function value that is handed to code outside the module (time.AfterFunc,
+// errgroup.Go, a worker pool). If the function is later started on a goroutine the
+// simulator has not seen, that goroutine is named after the call that handed the function
+// over (creator, site, per-creator counter) and parks before its first statement. Several
+// timer callbacks due at the same simulated instant are thereby told apart, which their
+// first scheduling point and (absent) parent could not do. Called on a goroutine the
+// simulator knows (sync.Once.Do, a sort callback, a pool worker) the function just runs.
+func Spawned[F any](site string, f F) F {
+	s := cur.Load()
+	if s == nil {
+		return f
+	}
+	v := reflect.ValueOf(f)
+	if v.Kind() != reflect.Func || v.IsNil() {
+		return f
+	}
+	g := goID()
+	s.mu.Lock()
+	creator := "?"
+	if a := s.byGID[g]; a != nil && a.name != "" {
+		creator = a.name
+	}
+	k := creator + ">" + site
+	n := s.spawnCtr[k]
+	s.spawnCtr[k] = n + 1
+	s.mu.Unlock()
+	ticket := k + "#" + strconv.Itoa(n)
+	var calls atomic.Int64
+	w := reflect.MakeFunc(v.Type(), func(args []reflect.Value) []reflect.Value {
+		if cur.Load() == s {
+			g := goID()
+			s.mu.Lock()
+			known := s.byGID[g] != nil
+			s.mu.Unlock()
+			if !known {
+				name := ticket
+				if c := calls.Add(1); c > 1 {
+					name += "@" + strconv.FormatInt(c, 10)
+				}
+				s.yield("spawned:"+site, name)
+			}
+		}
+		if v.Type().IsVariadic() {
+			return v.CallSlice(args)
+		}
+		return v.Call(args)
+	})
+	return w.Interface().(F)
+}
+
 // Logf records an event for the calling actor. Events of one step are merged in a
 // canonical order (actor id, then per-actor sequence), never in real-time order.
 func Logf(format string, args ...interface{}) {
@@ -315,7 +368,7 @@ func (s *Sim) absorb() string {
 			if p := s.byGID[a.parent]; p != nil {
 				pn = p.name
 			}
-			return a.site + "\x00" + pn
+			return a.site + "\x00" + pn + "\x00" + a.name
 		}
 		sort.SliceStable(nc, func(i, j int) bool { return key(nc[i]) < key(nc[j]) })
 		for i := 1; i < len(nc); i++ {
